@@ -226,10 +226,13 @@ fn check_diagnostics(text: &str) -> Option<String> {
     };
     let mut g: Vec<(u32, u32, u32, u32)> = got.iter().map(|d| (d.range.start.line, d.range.start.character, d.range.end.line, d.range.end.character)).collect();
     g.sort();
-    if g != expected {
-        let k = (0..g.len().min(expected.len())).find(|&i| g[i] != expected[i]).unwrap_or(0);
-        return Some(format!("published diagnostic ranges differ from the UTF-16 ranges of the error spans: {} published, {} expected; first difference: published {:?}, expected {:?}",
-                            g.len(), expected.len(), g.get(k), expected.get(k)));
+    // every published range must be the UTF-16 range of one of the error spans (multiset inclusion: publishing fewer diagnostics is not a position defect)
+    let mut pool = expected.clone();
+    for r in g.iter() {
+        match pool.iter().position(|e| e == r) {
+            Some(k) => { pool.remove(k); }
+            None => return Some(format!("a published diagnostic has the range {:?}, which is not the UTF-16 range of any error span of the text (those are {:?})", r, expected)),
+        }
     }
     None
 }
